@@ -88,24 +88,13 @@ theorem check_plain (S : Schema) (vars : List VarDef) (ty : Ty) (v : Value) (hv 
   | «variable» n => simp [check, Ty.innerNamed, variableDiags]
   | object fs => simp [check, Ty.innerNamed]
 
-theorem customOK_plain {a b : Bool} {v : Value} (hv : Plain v) (h : CustomOK a v) : CustomOK b v := by
-  cases h with
-  | int i => exact .int i
-  | float x => exact .float x
-  | string => exact .string
-  | boolean => exact .boolean
-  | enum e => exact .enum e
-  | null _ => exact absurd rfl hv.1
-  | list vs _ => exact absurd rfl (hv.2 vs)
-  | object fs h => exact .object fs h
-
-/-- for a custom scalar, `Coerces` is `CustomOK` -/
+/-- for a custom scalar, `Coerces` is `LiteralOK` -/
 theorem coerces_custom_named {S : Schema} {n : Name} (hn : S.lookup n = some (.scalar false)) (v : Value) :
-    Coerces S (.named n) v ↔ CustomOK false v := by
+    Coerces S (.named n) v ↔ LiteralOK v := by
   constructor
   · intro h
     cases h with
-    | null _ _ => exact .null rfl
+    | null _ _ => exact .null
     | custom _ _ _ h => exact h
     | int i h => rw [hn] at h; cases h
     | floatOfInt i h => rw [hn] at h; cases h
@@ -118,15 +107,14 @@ theorem coerces_custom_named {S : Schema} {n : Name} (hn : S.lookup n = some (.s
     | inputObject _ fields fs h => rw [hn] at h; cases h
   · intro h; exact .custom n v hn h
 
-theorem coerces_custom_nonNull {S : Schema} {n : Name} (hn : S.lookup n = some (.scalar false)) (v : Value) :
-    Coerces S (.nonNullNamed n) v ↔ CustomOK true v := by
+theorem coerces_nonNullNamed (S : Schema) (n : Name) (v : Value) :
+    Coerces S (.nonNullNamed n) v ↔ v ≠ .null ∧ Coerces S (.named n) v := by
   constructor
   · intro h
     cases h with
     | null _ h => simp [Ty.isNonNull] at h
-    | nonNullNamed _ _ _ h => exact absurd hn h
-    | customNonNull _ _ _ h => exact h
-  · intro h; exact .customNonNull n v hn h
+    | nonNullNamed _ _ h1 h2 => exact ⟨h1, h2⟩
+  · intro ⟨h1, h2⟩; exact .nonNullNamed n v h1 h2
 
 theorem coerces_plain (S : Schema) (v : Value) (hv : Plain v) : ∀ (ty : Ty),
     Coerces S ty v ↔ Coerces S (.named ty.innerNamed) v := by
@@ -135,16 +123,8 @@ theorem coerces_plain (S : Schema) (v : Value) (hv : Plain v) : ∀ (ty : Ty),
   | named n => rfl
   | nonNullNamed n =>
     simp only [Ty.innerNamed]
-    by_cases hn : S.lookup n = some (.scalar false)
-    · rw [coerces_custom_nonNull hn, coerces_custom_named hn]
-      exact ⟨customOK_plain hv, customOK_plain hv⟩
-    · constructor
-      · intro h
-        cases h with
-        | null _ h => simp [Ty.isNonNull] at h
-        | nonNullNamed _ _ _ _ h => exact h
-        | customNonNull _ _ h => exact absurd h hn
-      · intro h; exact .nonNullNamed n v hv.1 hn h
+    rw [coerces_nonNullNamed]
+    exact ⟨fun h => h.2, fun h => ⟨hv.1, h⟩⟩
   | list t ih =>
     simp only [Ty.innerNamed]
     rw [← ih]
@@ -182,9 +162,8 @@ theorem literalOK_object (fs : Fields) :
   · intro ⟨h1, h2⟩; exact .object fs h1 h2
   · intro h; cases h with | object _ h1 h2 => exact ⟨h1, h2⟩
 
-mutual
 theorem check_custom (S : Schema) (n : Name) (hn : S.lookup n = some (.scalar false)) : ∀ (v : Value) (ty : Ty),
-    ty.innerNamed = n → ty.isList = false → (check S [] ty v = [] ↔ CustomOK ty.isNonNull v)
+    ty.innerNamed = n → ty.isList = false → (check S [] ty v = [] ↔ (LiteralOK v ∧ (ty.isNonNull = true → v ≠ .null)))
   | .int i, ty, hi, _ => by simp [check, hi, hn, intDiags]; exact .int i
   | .float b, ty, hi, _ => by simp [check, hi, hn, floatDiags]; exact .float b
   | .string, ty, hi, _ => by simp [check, hi, hn, stringDiags]; exact .string
@@ -193,34 +172,23 @@ theorem check_custom (S : Schema) (n : Name) (hn : S.lookup n = some (.scalar fa
   | .null, ty, hi, _ => by
     simp only [check, hi, hn]
     cases hnn : ty.isNonNull with
-    | false => simp; exact .null rfl
-    | true =>
-      simp
-      intro h; cases h with | null h => cases h
+    | false => simp; exact .null
+    | true => simp
   | .variable x, ty, hi, _ => by
     simp only [check, hi, hn, variableDiags, List.find?_nil]
     constructor
     · intro h; cases h
-    · intro h; cases h
+    · intro h; cases h.1
   | .list vs, ty, hi, hl => by
-    simp only [check, hi, hn, hl, Bool.false_or, Bool.not_true, Bool.false_eq_true, if_false, TypeDef.isInputType, if_true]
-    rw [itemType_of_not_list ty hl, check_custom_items S n hn vs ty hi hl]
+    simp only [check, hi, hn, hl, Bool.false_or, Bool.not_true, Bool.false_eq_true, if_false, Bool.not_false, if_true]
+    rw [opaqueList_iff vs]
     constructor
-    · intro h; exact .list vs h
-    · intro h; cases h with | list _ h => exact h
+    · intro h; exact ⟨.list vs h, fun _ => by simp⟩
+    · intro h; cases h.1 with | list _ h => exact h
   | .object fs, ty, hi, _ => by
     simp only [check, hi, hn]
     rw [literalOK_object]
-    constructor
-    · intro h; exact .object fs h
-    · intro h; cases h with | object _ h => exact h
-theorem check_custom_items (S : Schema) (n : Name) (hn : S.lookup n = some (.scalar false)) : ∀ (vs : Values) (ty : Ty),
-    ty.innerNamed = n → ty.isList = false → (checkItems S [] ty vs = [] ↔ ∀ v ∈ vs.toList, CustomOK ty.isNonNull v)
-  | .nil, ty, _, _ => by simp [checkItems, Values.toList]
-  | .cons v tl, ty, hi, hl => by
-    simp only [checkItems, Values.toList, List.mem_cons, forall_eq_or_imp]
-    rw [List.append_eq_nil_iff, check_custom S n hn v ty hi hl, check_custom_items S n hn tl ty hi hl]
-end
+    exact ⟨fun h => ⟨h, fun _ => by simp⟩, fun h => h.1⟩
 
 /-! ### scalar and enum literals against a named type -/
 
@@ -382,11 +350,10 @@ theorem check_null (S : Schema) (ty : Ty) (hd : Defined S ty) : check S [] ty .n
   · intro h
     cases h with
     | null _ h => simp [h]
-    | nonNullNamed _ _ h => exact absurd rfl h
+    | nonNullNamed _ _ h _ => exact absurd rfl h
     | nonNullList _ _ h => exact absurd rfl h
     | listSingle _ _ h => exact absurd rfl h
     | custom _ _ _ _ => simp [Ty.isNonNull]
-    | customNonNull _ _ _ h => cases h with | null h => cases h
 
 
 /-! ### object literals -/
@@ -504,7 +471,7 @@ theorem plain_case (S : Schema) (v : Value) (hp : Plain v)
   by_cases hc : td = .scalar false
   · subst hc
     rw [check_custom S _ hl v (.named ty.innerNamed) rfl rfl, coerces_custom_named hl]
-    exact Iff.rfl
+    exact ⟨fun h => h.1, fun h => ⟨h, fun hx => by simp [Ty.isNonNull] at hx⟩⟩
   · exact hnamed _ td hl hin hc
 
 
@@ -596,7 +563,7 @@ theorem check_iff (S : Schema) (hS : Closed S) : ∀ (v : Value) (ty : Ty), Defi
       · subst hc
         have hl' : S.lookup n = some (.scalar false) := hl
         rw [check_custom S n hl' (.list vs) (.named n) rfl rfl, coerces_custom_named hl']
-        exact Iff.rfl
+        exact ⟨fun h => h.1, fun h => ⟨h, fun _ => by simp⟩⟩
       · simp only [check, Ty.innerNamed] at hl ⊢
         simp only [hl, Ty.isList, Bool.false_or, not_custom_match td hc, Bool.not_false, if_true, reduceCtorEq, false_iff]
         intro h
@@ -606,16 +573,15 @@ theorem check_iff (S : Schema) (hS : Closed S) : ∀ (v : Value) (ty : Ty), Defi
       by_cases hc : td = .scalar false
       · subst hc
         have hl' : S.lookup n = some (.scalar false) := hl
-        rw [check_custom S n hl' (.list vs) (.nonNullNamed n) rfl rfl, coerces_custom_nonNull hl']
-        exact Iff.rfl
+        rw [check_custom S n hl' (.list vs) (.nonNullNamed n) rfl rfl, coerces_nonNullNamed, coerces_custom_named hl']
+        exact ⟨fun h => ⟨by simp, h.1⟩, fun h => ⟨h.2, fun _ => by simp⟩⟩
       · simp only [check, Ty.innerNamed] at hl ⊢
         simp only [hl, Ty.isList, Bool.false_or, not_custom_match td hc, Bool.not_false, if_true, reduceCtorEq, false_iff]
         intro h
         cases h with
-        | nonNullNamed _ _ _ _ h =>
+        | nonNullNamed _ _ _ h =>
           cases h with
           | custom _ _ h1 _ => rw [h1] at hl; exact hc (Option.some.inj hl).symm
-        | customNonNull _ _ h1 _ => rw [h1] at hl; exact hc (Option.some.inj hl).symm
     | list t =>
       have hdt : Defined S t := ⟨td, hl, hin⟩
       simp only [check, Ty.innerNamed] at hl ⊢
